@@ -168,13 +168,20 @@ def oracle(ctx, s, ds, qs, case):
     with np.errstate(all="ignore"):
         ref = vrh(C)
         Sv = voigt_compliance_from_tensor(compliance_tensor(C))
-    rel = 1e-7
+    # 1e-7 relative, widened where the tensor is so close to singular that the inverse itself (any algorithm, 53-bit
+    # floats) is uncertain: relative error of an inverse ~ condition number x 2.2e-16, amplified once more by the
+    # cancellation in 1/S_iijj and 15/(6 S_ijij - 2 S_iijj)
+    from ..reftensor import mandel as _mandel
+    _ev = np.linalg.eigvalsh(_mandel(C))
+    with np.errstate(all="ignore"):
+        cond = np.where(pd, _ev[..., -1] / _ev[..., 0], 1.0)
+    rel = np.maximum(1e-7, 200 * 2.2e-16 * cond)
 
     def cmp(name, a, b, bucket):
         if a.shape != b.shape:
             raise PropertyViolation(bucket + "/shape", "%s has shape %r, the grid is %r" % (name, a.shape, b.shape), case)
         sc = np.max(np.abs(b[pd]))
-        bad = pd & ~(np.abs(a - b) <= rel * sc)
+        bad = pd & ~(np.abs(a - b) <= rel * np.maximum(sc * 1e-7 / rel, np.abs(b)))
         if a.shape != b.shape or np.any(bad):
             idx = tuple(int(x) for x in np.argwhere(bad)[0])
             raise PropertyViolation(bucket, "%s at %r: code %r, reference %r" % (name, idx, float(a[idx]), float(b[idx])), case)
